@@ -54,6 +54,14 @@ def rand_case(rng):
             opts = sorted(c for c in back[a] if table[a][c] == best)
             subs = sorted(c for c in back[a] if table[a][c] < best)
             codons.append(rng.choice(subs) if (i == j and subs) else rng.choice(opts))
+    keep_first = rng.random() < 0.25
+    if keep_first and not targeted and rng.random() < 0.7:
+        # the kept (frozen) first codon is sub-optimal and so are the others: every other codon must still be optimized
+        codons = []
+        for a in protein:
+            best = max(table[a].values())
+            subs = sorted(c for c in back[a] if table[a][c] < best)
+            codons.append(rng.choice(subs) if subs else rng.choice(sorted(back[a])))
     cds = "".join(codons)
     strand = rng.choice([1, 1, -1])
     left, right = hard.rand_seq(rng, rng.randint(0, 7)), hard.rand_seq(rng, rng.randint(0, 7))
@@ -75,7 +83,7 @@ def rand_case(rng):
         if other == "rca":
             first["orig_table_seed"] = rng.choice([seed, oseed])
     desc = dict(sequence=seq, constraints=[dict(kind="cds", location=loc, table=rng.choice(["Standard", "Bacterial"]),
-                                                start_codon=None if rng.random() < 0.75 else "keep", translation=None)],
+                                                start_codon="keep" if keep_first else None, translation=None)],
                 objectives=[obj], settings={},   # default solver settings: the property does not quantify over degraded searches
                 np_seed=rng.randint(0, 10 ** 6), protein=protein, targeted=targeted)
     if first is not None:
@@ -169,7 +177,7 @@ def oracle(results, out):
 
 
 def correspondence(ctx):
-    results, skipped = solverprops.run_cases(gen_cases(ctx.rng, ctx.n(350, 6000)))
+    results, skipped = solverprops.run_cases(gen_cases(ctx.rng, ctx.n(500, 8000)))
     ctx._results = results
     c = solverprops.correspondence_of(results)
     # (ii) evaluation of the objective itself on start / final sequences
